@@ -103,6 +103,37 @@ def entries():
             "verus": f"pub assume_specification[ <{dst} as core::convert::From<{src}>>::from ](a: {src}) -> (r: {dst})\n    ensures r == a as {dst};",
             "tys": (src,), "call": dst + "::from({0})", "pre": lambda a: True, "exp": lambda a: a,
         })
+    # checked conversions unsigned -> signed of the same width (vstd specifies only the other directions)
+    for src, dst in [("u8", "i8"), ("u16", "i16"), ("u32", "i32"), ("u64", "i64"), ("u128", "i128")]:
+        hi = rng(dst)[1]
+        E.append({
+            "name": f"<{dst}ascore::convert::TryFrom<{src}>>::try_from",
+            "verus": f"pub assume_specification[ <{dst} as core::convert::TryFrom<{src}>>::try_from ](a: {src}) -> (r: Result<{dst}, <{dst} as core::convert::TryFrom<{src}>>::Error>)\n    ensures a <= {dst}::MAX ==> (r is Ok && r->Ok_0 == a as {dst}), a > {dst}::MAX ==> r is Err;",
+            "tys": (src,), "call": dst + "::try_from({0}).map(|v| v as i128).unwrap_or(i128::MAX)", "pre": lambda a: True,
+            "exp": lambda a, hi=hi: a if a <= hi else 2 ** 127 - 1,
+        })
+    # Result::unwrap_or, std::time::Duration::new / as_nanos, f64::is_finite
+    E.append({
+        "name": "core::result::Result::<T,E>::unwrap_or",
+        "verus": "pub assume_specification<T, E>[ core::result::Result::<T, E>::unwrap_or ](r: Result<T, E>, d: T) -> (o: T)\n    ensures r is Ok ==> o == r->Ok_0, r is Err ==> o == d;",
+        "tys": ("i64", "i64"), "call": "(Ok::<i64, ()>({0}).unwrap_or({1}) as i128 * 3 + Err::<i64, ()>(()).unwrap_or({1}) as i128)", "pre": lambda a, b: True,
+        "exp": lambda a, b: 3 * a + b,
+    })
+    E.append({
+        "name": "core::time::Duration::new",
+        "verus": "pub assume_specification[ core::time::Duration::new ](secs: u64, nanos: u32) -> (r: core::time::Duration)\n    requires nanos < 1_000_000_000,\n    ensures std_nanos(r) == secs as nat * 1_000_000_000 + nanos as nat;",
+        "tys": ("u64", "u32"), "call": "core::time::Duration::new({0}, {1}).as_nanos()", "pre": lambda a, b: b < 10 ** 9, "exp": lambda a, b: a * 10 ** 9 + b,
+    })
+    E.append({
+        "name": "core::time::Duration::as_nanos",
+        "verus": "pub assume_specification[ core::time::Duration::as_nanos ](d: &core::time::Duration) -> (r: u128)\n    ensures r == std_nanos(*d), r <= 18_446_744_073_709_551_615u128 * 1_000_000_000 + 999_999_999;",
+        "tys": ("u64", "u32"), "call": "((core::time::Duration::new({0}, {1}).as_nanos() <= 18_446_744_073_709_551_615u128 * 1_000_000_000 + 999_999_999) as i128)", "pre": lambda a, b: b < 10 ** 9, "exp": lambda a, b: 1,
+    })
+    E.append({
+        "name": "f64::is_finite",
+        "verus": "pub assume_specification[ f64::is_finite ](x: f64) -> (r: bool)\n    ensures r == x.is_finite_spec();",
+        "tys": ("u64",), "call": "(f64::from_bits({0}).is_finite() as i128)", "pre": lambda a: True, "exp": lambda a: int(((a >> 52) & 0x7FF) != 0x7FF),
+    })
     E.append({
         "name": "<OrderingasPartialEq>::eq",
         "verus": "pub assume_specification[ <Ordering as PartialEq>::eq ](a: &Ordering, b: &Ordering) -> (r: bool)\n    ensures r == (*a == *b);",
